@@ -44,6 +44,9 @@ ALLOWED_AXIOMS = {
     # same file; used only by the binary64 quantile index law of Proofs/QIdxFloat.v (C12 / C10 / C08 ..._binary64)
     "FloatAxioms.mul_spec",
     "FloatAxioms.of_uint63_spec",
+    # the standard library's specification of the primitive binary64 DIVISION, same file; used only by the binary64
+    # error bounds of the means in Proofs/RoundMean.v (C11 (R6)-(R8), C01 ts_vmean_binary64, C06 (18))
+    "FloatAxioms.div_spec",
 }
 # primitive types / operations that `Print Assumptions` lists next to axioms ("native int/float primitives are not yours")
 PRIMITIVE_PREFIXES = ("PrimFloat.", "PrimInt63.", "PrimArray.", "Uint63.", "Sint63.")
